@@ -482,30 +482,58 @@ def build_specs(eng):
         return n + m - 1 if (n == 1 or m == 1) else n + m
 
     def mul_check(n, m, nm):
+        tag = nm.split(':', 1)[1] if ':' in nm else ''
+
         def check(ins, outs, L):
-            mod = None
             for j in range(L):
                 if ins[0][j] * ins[1][j] != outs[0][j]:
-                    return ('product', f'lane {j}: {ins[0][j]}*{ins[1][j]} != {outs[0][j]} (widths {n}x{m})')
+                    return ('product' + (':' + tag if tag else ''), f'lane {j}: {ins[0][j]}*{ins[1][j]} != {outs[0][j]} (widths {n}x{m})')
             return None
         return check
 
-    def mul_plan(name, wide=False):
+    def mul_widths(rng, name):
+        kara = 'karatsuba' in name
+        table = [('small', 10), ('mid', 1.5), ('wide', 0.6)]
+        if kara:
+            table += [('kara', 0.8), ('kara-nested', 0.35)]
+        kind = weighted_choice(rng, table)
+        if kind == 'small':
+            n, m = rng.randint(1, 8), rng.randint(1, 8)
+            if rng.random() < 0.5:
+                n, m = rng.randint(1, 5), rng.randint(1, 5)
+        elif kind == 'mid':
+            n, m = rng.randint(9, 16), rng.randint(1, 16)
+        elif kind == 'wide':
+            n = rng.randint(17, 33)
+            m = rng.choice((n, rng.randint(17, 33), rng.randint(1, 33)))
+        elif kind == 'kara':
+            n = rng.choice((18, 20, 21, 22, 23, 24))
+            m = rng.choice((n, n, rng.randint(1, n)))
+        else:
+            n = rng.randint(33, 44)
+            m = rng.choice((n, n, rng.randint(20, n)))
+        if rng.random() < 0.5:
+            n, m = m, n
+        return kind, n, m
+
+    def mul_plan(name):
         def plan(eng, rng):
-            if wide:
-                n = rng.choice((18, 20, 21, 22, 23, 24))
-                m = rng.choice((n, n, rng.randint(1, n)))
-            else:
-                n, m = rng.randint(1, 8), rng.randint(1, 8)
-                if rng.random() < 0.5:
-                    n, m = rng.randint(1, 5), rng.randint(1, 5)
-            big = rng.random() < 0.4
+            kind, n, m = mul_widths(rng, name)
+            big = rng.random() < 0.45
             fn = mul_fns[name]
             box = {}
+            alias = n == m and rng.random() < 0.15  # the same list object for both operands: a * a
+            reuse = rng.random() < 0.2  # the caller uses its operand lists for a second call
 
             def bind(host, chosen):
-                a, b = chosen[:n], chosen[n:]
-                return (lambda: fn(host, list(a), list(b), big_endian=big)), f'{name}({a},{b},big_endian={big})'
+                la = list(chosen[:n])
+                lb = la if alias else list(chosen[n:])
+                def call():
+                    rv = fn(host, la, lb, big_endian=big)
+                    if reuse:
+                        rv = fn(host, la, lb, big_endian=big)
+                    return rv
+                return call, f'{name}({chosen[:n]},{"<same list>" if alias else chosen[n:]},big_endian={big}){" twice" if reuse else ""}'
 
             def results(rv):
                 box['len'] = len(rv)
@@ -516,21 +544,32 @@ def build_specs(eng):
                     return ('result-length', f'{box["len"]} result bits for widths {n}x{m}, documented {mul_len(n, m)}')
                 return None
 
-            return dict(need=n + m, bind=bind, operands=lambda ch: [_le(ch[:n], big), _le(ch[n:], big)], results=results,
-                        check=mul_check(n, m, name), also={'length': length}, cost=40 * n * m, inputs_only=wide)
+            def operands(ch):
+                if alias:
+                    return [_le(ch[:n], big), _le(ch[:n], big)]
+                return [_le(ch[:n], big), _le(ch[n:], big)]
+
+            eng.res.stats.probes.bump(f'mul-width-class:{kind}')
+            if alias:
+                eng.res.stats.probes.bump('mul-operands-aliased')
+            if reuse:
+                eng.res.stats.probes.bump('mul-operand-lists-reused')
+            return dict(need=n if alias else n + m, bind=bind, operands=operands, results=results,
+                        check=mul_check(n, m, name + (':' + kind if kind != 'small' else '') + (':big' if big else '')),
+                        also={'length': length}, cost=40 * n * m, inputs_only=(n + m > 16))
         return plan
 
     for nm, w in (('add_mul', 2), ('add_mul_alter', 2), ('add_mul_dadda', 2), ('add_mul_wallace', 2), ('add_mul_pow2_m1', 2),
-                  ('add_mul_karatsuba', 1), ('add_mul_karatsuba_with_efficient_sum', 1)):
+                  ('add_mul_karatsuba', 1.3), ('add_mul_karatsuba_with_efficient_sum', 1.3)):
         add('C08', nm, w)(mul_plan(nm))
-    add('C08', 'add_mul_karatsuba_with_efficient_sum', 0.12)(mul_plan('add_mul_karatsuba_with_efficient_sum', wide=True))
-    add('C08', 'add_mul_karatsuba', 0.12)(mul_plan('add_mul_karatsuba', wide=True))
 
     @add('C08', 'generate_mul', 3)
     def _(eng, rng):
-        n, m = rng.randint(1, 6), rng.randint(1, 6)
         mode = rng.choice(list(MulMode))
-        big = rng.random() < 0.4
+        kind, n, m = mul_widths(rng, 'karatsuba' if mode == MulMode.KARATSUBA else 'x')
+        if kind == 'small':
+            n, m = min(n, 6), min(m, 6)
+        big = rng.random() < 0.45
 
         def length(ins, outs, L):
             return None
@@ -562,7 +601,8 @@ def build_specs(eng):
 
     def sq_plan(name, fn):
         def plan(eng, rng):
-            n = weighted_choice(rng, [(1, 1), (2, 1), (3, 1), (rng.randint(4, 9), 4), (rng.randint(10, 14), 1)])
+            n = weighted_choice(rng, [(1, 1), (2, 1), (3, 1), (rng.randint(4, 9), 4), (rng.randint(10, 14), 1), (rng.randint(15, 40), 0.4),
+                                      (rng.randint(47, 56), 0.15)])
             big = rng.random() < 0.4
             box = {}
 
